@@ -435,7 +435,7 @@ func checkC20(c c20Case) verdict {
 }
 
 var c20Main = newPart("C20", "calls",
-	"rapid: call lists (a pure function of the seed) executed by Node against the wasm module built from the working tree and loaded through otp-js/src/index.js; each call is made via globalThis.<name> AND via the object the package exports, followed by a well-formed probe; arguments: counters/timestamps 0..2^53 (boundaries 2^31, 2^32, 2^53), fractional numbers (truncated; a quarter of the lists are related calls under one secret and parameter set with fractions on the time and on the period independently), digits '6','8','9','10' and unknown spellings, three hashes and unknown spellings (among them stored spellings whose hash under one of 13 cheap 32-bit hash functions equals that of a known word; also as the URL type word, which must be refused), periods 1..3600, skews 0..10, codes at window distance -(s+2)..+(s+2) and edited; malformed: every argument position x {undefined, null, NaN, -1, -1.5, 1e300, 2^63, +-Infinity, true, {}, [], a BigInt, a boxed String / Number object, a Symbol, a function, a Date, wrong-kind string/number, empty string}, too few / too many arguments (the surplus one a string, undefined once or twice, null), skew 11, period 0; plus two grids run through the same check (malformed-grid: every function x argument position x odd value x contexts period {1,7,10,30,3600} x skew {0,1,10}; related-fractions: runs of steps with fractional periods and instants on both sides of every boundary under one secret); oracle: native library AND independent reference for well-formed calls, 'error:' string for malformed ones, probe still correct; non-trivial = distance != 0 or digits != '6' or edited code or fractional number or malformed",
+	"rapid: call lists (a pure function of the seed) executed by Node against the wasm module built from the working tree and loaded through otp-js/src/index.js; each call is made via globalThis.<name> AND via the object the package exports, followed by a well-formed probe; arguments: counters/timestamps 0..2^53 (boundaries 2^31, 2^32, 2^53), fractional numbers (truncated; a quarter of the lists are related calls under one secret and parameter set with fractions on the time and on the period independently), digits '6','8','9','10' and unknown spellings, three hashes and unknown spellings (among them stored spellings whose hash under one of nine cheap 32-bit hash functions equals that of a known word; also as the URL type word, which must be refused), periods 1..3600, skews 0..10, codes at window distance -(s+2)..+(s+2) and edited; malformed: every argument position x {undefined, null, NaN, -1, -1.5, 1e300, 2^63, +-Infinity, true, {}, [], a BigInt, a boxed String / Number object, a Symbol, a function, a Date, wrong-kind string/number, empty string}, too few / too many arguments (the surplus one a string, undefined once or twice, null), skew 11, period 0; plus two grids run through the same check (malformed-grid: every function x argument position x odd value x contexts period {1,7,10,30,3600} x skew {0,1,10}; related-fractions: runs of steps with fractional periods and instants on both sides of every boundary under one secret); oracle: native library AND independent reference for well-formed calls, 'error:' string for malformed ones, probe still correct; non-trivial = distance != 0 or digits != '6' or edited code or fractional number or malformed",
 	checkC20)
 
 func drawC20Call(t *rapid.T) c20Call {
